@@ -425,9 +425,20 @@ impl Env {
         }
         let mut so = child.stdout.take().unwrap();
         let mut se = child.stderr.take().unwrap();
+        let live = std::sync::Arc::new(std::sync::Mutex::new(Vec::<u8>::new()));
+        let live2 = live.clone();
         let h1 = std::thread::spawn(move || {
             let mut v = vec![];
-            let _ = so.read_to_end(&mut v);
+            let mut buf = [0u8; 16384];
+            loop {
+                match so.read(&mut buf) {
+                    Ok(0) | Err(_) => break,
+                    Ok(n) => {
+                        v.extend_from_slice(&buf[..n]);
+                        live2.lock().unwrap().extend_from_slice(&buf[..n]);
+                    }
+                }
+            }
             v
         });
         let h2 = std::thread::spawn(move || {
@@ -441,6 +452,7 @@ impl Env {
             t0,
             out: Some(h1),
             err: Some(h2),
+            live,
         }
     }
 
@@ -536,9 +548,14 @@ pub struct Running {
     t0: Instant,
     out: Option<std::thread::JoinHandle<Vec<u8>>>,
     err: Option<std::thread::JoinHandle<Vec<u8>>>,
+    live: std::sync::Arc<std::sync::Mutex<Vec<u8>>>,
 }
 
 impl Running {
+    /// stdout received so far
+    pub fn stdout_so_far(&self) -> Vec<u8> {
+        self.live.lock().unwrap().clone()
+    }
     pub fn try_done(&mut self) -> bool {
         matches!(self.child.try_wait(), Ok(Some(_)))
     }
@@ -945,4 +962,43 @@ pub fn verify_show(
         }
     }
     Ok(())
+}
+
+// ---------------------------------------------------------------------------
+// log listeners
+
+/// Is some socket listening on 127.0.0.1:port? (reads /proc/net/tcp; no probe connection)
+pub fn is_listening(port: u16) -> bool {
+    let want = format!(":{:04X}", port);
+    if let Ok(s) = std::fs::read_to_string("/proc/net/tcp") {
+        for line in s.lines().skip(1) {
+            let f: Vec<&str> = line.split_whitespace().collect();
+            if f.len() > 3 && f[1].ends_with(&want) && f[3] == "0A" {
+                return true;
+            }
+        }
+    }
+    false
+}
+
+pub fn wait_listening(port: u16, timeout: Duration) -> bool {
+    let t0 = Instant::now();
+    while t0.elapsed() < timeout {
+        if is_listening(port) {
+            return true;
+        }
+        std::thread::sleep(Duration::from_millis(2));
+    }
+    false
+}
+
+pub fn wait_not_listening(port: u16, timeout: Duration) -> bool {
+    let t0 = Instant::now();
+    while t0.elapsed() < timeout {
+        if !is_listening(port) {
+            return true;
+        }
+        std::thread::sleep(Duration::from_millis(2));
+    }
+    false
 }
